@@ -1,5 +1,5 @@
 """C11 - 2-D group analysis equals per-signal analysis, in order, for every completion order."""
-import time, warnings
+import sys, time, warnings
 import numpy as np
 from core import Result
 import proto, gen, implutil
@@ -48,6 +48,8 @@ def _rows(seed, n):
         s = gen.make_signal(np.random.default_rng([seed, i]), family=['bursty', 'sum', 'asym', 'noise'][i % 4], fs=250, f0=10, n=500)['sig']
         s = s.copy(); s[0] = 1000.0 + i          # distinct key for the delay plan (first sample is never an extremum of interest)
         out.append(s)
+    if seed % 7 == 3 and n >= 3:                 # the SAME recording at two positions (with per-row options the two analyses still differ)
+        out[n - 1] = out[0].copy()
     return np.array(out), 250, (7.0, 13.0)
 
 def corpus(ctx):
@@ -56,18 +58,26 @@ def corpus(ctx):
             # directed: rows whose option sets differ only in the filter length in seconds, handled by ONE worker; references from pristine processes
             dict(seed=8, n=3, kw='list', oids=[7, 8, 7], n_jobs=1, progress=None, rs=True, delay='none', via='func'),
             dict(seed=12, n=4, kw='list', oids=[8, 7, 0, 5], n_jobs=1, progress=None, rs=True, delay='none', via='func'),
-            dict(seed=14, n=2, kw='list', oids=[7, 8], n_jobs=2, progress=None, rs=True, delay='reverse', via='object')]
+            dict(seed=14, n=2, kw='list', oids=[7, 8], n_jobs=2, progress=None, rs=True, delay='reverse', via='object'),
+            # directed: many more rows than workers (chunked dispatch), identical rows with different per-row options, and a progress bar that
+            # is really drawn (a stand-in tqdm module is installed for the call when the real one is absent)
+            dict(seed=16, n=9, kw='list', oids=[0, 1, 2, 3, 4, 5, 6, 0, 1], n_jobs=1, progress=None, rs=True, delay='none', via='func'),
+            dict(seed=18, n=17, kw='dict', oids=[1], n_jobs=2, progress=None, rs=True, delay='reverse', via='object'),
+            dict(seed=10, n=4, kw='list', oids=[3, 0, 1, 5], n_jobs=1, progress=None, rs=True, delay='none', via='func'),      # (seed % 7 == 3: rows 0 and 3 identical)
+            dict(seed=20, n=4, kw='list', oids=[0, 1, 3, 2], n_jobs=3, progress='tqdm', rs=True, delay='reverse', via='func', stub_tqdm=True),
+            dict(seed=22, n=3, kw='dict', oids=[2], n_jobs=2, progress='tqdm', rs=True, delay='random', via='func', stub_tqdm=True)]
 
 def generate(ctx):
     rng = ctx.rng
     cases = []
     for i in range(ctx.scale(36, 300)):
-        n = int(rng.integers(2, 7))
+        n = int(rng.integers(2, 7)) if rng.random() < 0.9 else int(rng.choice([8, 9, 16, 17]))      # (a tenth with many more rows than workers)
         kwk = str(rng.choice(['none', 'dict', 'list', 'list', 'shared_nested']))
         oids = [int(x) for x in rng.integers(0, len(OPTS), size=n)] if kwk == 'list' else ([int(rng.integers(0, len(OPTS)))] if kwk == 'dict' else [])
         cases.append(dict(seed=int(rng.integers(1 << 30)), n=n, kw=kwk, oids=oids, n_jobs=int(rng.choice([1, 2, 3, n + 2, -1])),
                           progress=(None if rng.random() < 0.7 else 'tqdm'), rs=bool(rng.random() < 0.7),
                           delay=str(rng.choice(['reverse', 'random', 'none'])), via=str(rng.choice(['func', 'func', 'object']))))
+        if cases[-1]['progress'] == 'tqdm' and rng.random() < 0.5: cases[-1]['stub_tqdm'] = True
         if kwk == 'shared_nested':
             cases[-1]['via'] = 'func'; cases[-1]['n_jobs'] = int(rng.choice([1, 1, 2]))
     return cases
@@ -112,6 +122,13 @@ def evaluate(ctx, cases):
         orig = gf.compute_features
         gf.compute_features = DelayedCF(orig, delays)
         info = {}
+        stub = None
+        if c.get('stub_tqdm') and 'tqdm' not in sys.modules:
+            # the optional dependency is PRESENT for this call: a stand-in module whose tqdm(iterable, ...) just iterates (forked workers inherit it)
+            import types
+            stub = types.ModuleType('tqdm'); stub.tqdm = lambda it=None, *a, **k: it
+            nb = types.ModuleType('tqdm.notebook'); nb.tqdm = stub.tqdm; stub.notebook = nb
+            sys.modules['tqdm'] = stub; sys.modules['tqdm.notebook'] = nb
         try:
             if c['via'] == 'func':
                 res = implutil.quiet(compute_features_2d, sigs, fs, fr, compute_features_kwargs=kwv, axis=0, return_samples=c['rs'],
@@ -137,6 +154,8 @@ def evaluate(ctx, cases):
             res, models, err = None, None, type(e).__name__ + ': ' + str(e)[:120]
         finally:
             gf.compute_features = orig
+            if stub is not None:
+                sys.modules.pop('tqdm', None); sys.modules.pop('tqdm.notebook', None)
         def check(pred):
             """pred: list of tags [[sid], oid, 0]; returns first disagreement or None"""
             if err: return 'raised ' + err
